@@ -1,6 +1,7 @@
 package main
 
 import (
+	"encoding/json"
 	"fmt"
 	"math"
 	"sort"
@@ -9,7 +10,11 @@ import (
 	"github.com/dcaiafa/lox/internal/lexergen/mode"
 	"github.com/dcaiafa/lox/internal/lexergen/rang3"
 	"github.com/dcaiafa/lox/internal/parsergen/lr1"
+	"github.com/dcaiafa/lox/verif/internal/gen"
+	"github.com/dcaiafa/lox/verif/internal/lexref"
 	"github.com/dcaiafa/lox/verif/internal/lx"
+	"github.com/dcaiafa/lox/verif/internal/mc"
+	"github.com/dcaiafa/lox/verif/internal/pipe"
 	"github.com/dcaiafa/lox/verif/internal/px"
 )
 
@@ -235,4 +240,137 @@ func checkParserTables(b *px.Built) string {
 		}
 	}
 	return ""
+}
+
+// ---------------------------------------------------------------------------
+// C10 as a check of its own: it re-runs, under its own id, the table-level
+// obligations on the specification families of the other checks.
+
+func c10Worker(c *mc.Ctx) {
+	ws := pipe.NewWorkspace("c10")
+	defer ws.Close()
+	// Lexer side: structure, equality with the DFA object, and equivalence
+	// with the rules over all strings (product search).
+	leaves := lexref.StdLeaves()
+	cards := []int{lexref.COpt, lexref.CStar, lexref.CPlus}
+	p1, p2, p3 := lexref.NewPool(leaves, cards, 1), lexref.NewPool(leaves, cards, 2), lexref.NewPool(leaves, cards, 3)
+	type lfam struct {
+		name  string
+		size  int64
+		get   func(i int64) *lexref.Spec
+		limit int64
+		dom   func(*lexref.Compiled) (bool, string)
+	}
+	anySpec := func(*lexref.Compiled) (bool, string) { return true, "" }
+	var lf []lfam
+	rs := func(name string, r *lexref.RuleSets, limit int64) {
+		lf = append(lf, lfam{name, r.Size(), r.Get, limit, specInDomainC02})
+	}
+	if c.Quick() {
+		rs("r2-s2", &lexref.RuleSets{Pools: []*lexref.Pool{p2, p2}, Kinds: 2}, 0)
+		rs("r3-s1", &lexref.RuleSets{Pools: []*lexref.Pool{p1, p1, p1}, Kinds: 2}, 0)
+	} else {
+		rs("r2-s3", &lexref.RuleSets{Pools: []*lexref.Pool{p3, p3}, Kinds: 2}, 300000)
+		rs("r3-s2s1", &lexref.RuleSets{Pools: []*lexref.Pool{p2, p2, p1}, Kinds: 2}, 300000)
+	}
+	for _, f := range c07Spaces(true) {
+		f := f
+		lf = append(lf, lfam{"modes-" + f.name, f.sp.Size(), f.sp.Get, 20000, anySpec})
+	}
+	for _, f := range lf {
+		n := f.size
+		if f.limit > 0 && f.limit < n {
+			c.Stats.Cap(fmt.Sprintf("%s: first %d of %d specifications", f.name, f.limit, n))
+			n = f.limit
+		}
+		for i := int64(0); i < n; i++ {
+			if !c.Mine(i) {
+				continue
+			}
+			s := f.get(i)
+			if len(c.Stats.Samples) < 2 && i%499 == 17 {
+				c.Stats.Sample(map[string]any{"family": f.name, "lexer_spec": s.OneLine()})
+			}
+			for _, v := range c02One(ws, f.name, i, s, 1, &c.Stats, "C10", f.dom) {
+				c.Stats.Violate(v)
+			}
+		}
+	}
+	// Parser side: decoded arrays equal the automaton object exactly.
+	pf := []family{
+		{Name: "plain", Space: gen.NewSpace(2, 2, 2, 2, false)},
+		{Name: "sugar", Space: gen.NewSpace(2, 2, 2, 2, false), Sugar: true, Limit: 4000},
+		{Name: "error", Space: gen.NewSpace(2, 2, 2, 2, true), Limit: 60000},
+	}
+	if !c.Quick() {
+		pf = []family{
+			{Name: "plain-l3", Space: gen.NewSpace(2, 2, 2, 3, false)},
+			{Name: "plain3", Space: gen.NewSpace(3, 2, 2, 2, false), Limit: 6000000},
+			{Name: "sugar", Space: gen.NewSpace(2, 2, 2, 2, false), Sugar: true},
+			{Name: "error", Space: gen.NewSpace(2, 2, 2, 2, true)},
+		}
+	}
+	for _, fam := range pf {
+		fam := fam
+		fam.each(c, func(idx int64, g *gen.Grammar) {
+			b := px.Build(ws, g, px.NB)
+			if b.Status == px.Broken {
+				c.Stats.HarnessError("grammar {%s}: %s", g.String(), b.Problem)
+				return
+			}
+			if b.Status != px.Accepted {
+				return
+			}
+			c.Stats.Evaluations++
+			c.Stats.Validated++
+			c.Stats.Add("parser_tables_checked", 1)
+			t := b.Res.V.Table
+			c.Stats.States += int64(len(t.States))
+			for _, st := range t.States {
+				c.Stats.Transitions += int64(len(t.Transitions(st).Inputs()))
+			}
+			if len(t.States) > 4 {
+				c.Stats.Nontrivial++
+			}
+			if p := checkParserTables(b); p != "" {
+				c.Stats.Violate(mc.Violation{Property: "C10", Check: "C10", Kind: "parser-table", Size: len(g.String()),
+					Case: mkCase(fam.Name, idx, g, 0, nil), Detail: "grammar {" + g.String() + "}: " + p})
+			}
+		})
+	}
+}
+
+func c10Replay(raw json.RawMessage) *mc.Violation {
+	var probe struct {
+		Spec    *lexref.Spec `json:"spec"`
+		Grammar *gen.Grammar `json:"grammar"`
+	}
+	if err := json.Unmarshal(raw, &probe); err != nil {
+		return &mc.Violation{Property: "C10", Kind: "bad-replay", Detail: err.Error()}
+	}
+	if probe.Spec != nil {
+		return lexReplay("C10", func(*lexref.Compiled) (bool, string) { return true, "" })(raw)
+	}
+	ws := pipe.NewWorkspace("c10r")
+	defer ws.Close()
+	b := px.Build(ws, probe.Grammar, px.NB)
+	if b.Status != px.Accepted {
+		return nil
+	}
+	if p := checkParserTables(b); p != "" {
+		return &mc.Violation{Property: "C10", Check: "C10", Kind: "parser-table", Detail: p}
+	}
+	return nil
+}
+
+func init() {
+	mc.Register(&mc.Check{
+		ID:    "C10",
+		Level: "model_checking",
+		Rule: "lexer: rule sets and mode graphs of the C02/C07 families; every emitted _lexerModeN is read back by its documented row format (structure: offsets inside the table, row lengths, sorted disjoint ranges in [0,0x10FFFF], targets and action codes in range, flag only on accepting rows), compared state by state and edge by edge with the DFA object it was emitted from, and the real state machine running on it is searched in product with the reference automaton of the rules (all strings); " +
+			"parser: accepted grammars of the C01/C09 families; decoded _actions/_goto/_rules/_termCounts equal the automaton object entry for entry, nothing extra (their equality with the reference LALR(1) automaton is C04's); states/transitions = product nodes/edges plus parser automaton states/edges",
+		Assume: []string{"documented row format as written in the generated PushRune/_Find comments", "reference: internal/lexref"},
+		Worker: c10Worker,
+		Replay: c10Replay,
+	})
 }
